@@ -26,6 +26,8 @@ def run_profile(chk, profile, per_type):
     r = tv("Trace_Build", "Trace_Build.cfg", t, reset_events=("NewBuilder",), shards=12, tag="C09-" + profile)
     chk.add_tv("build[%s]" % profile, r)
     for rj in r["rejects"]:
+        if recorder_level_reject(chk, rj):
+            continue
         ev, d = rj["event"], rj["diag"]
         chk.violation(sig(ev, d, rj["session"]) ,
                       "[%s] build session is not a behaviour of Builder: %s" % (profile, json.dumps(ev)[:300]),
@@ -59,6 +61,8 @@ def run(chk):
     rh = tv("Trace_Build", "Trace_Build.cfg", th, reset_events=("NewBuilder",), shards=12, tag="C09-hist")
     chk.add_tv("reused-builders", rh)
     for rj in rh["rejects"]:
+        if recorder_level_reject(chk, rj):
+            continue
         chk.violation("reused builder: " + sig(rj["event"], rj["diag"], rj["session"][-40:]),
                       "a build on a reused builder is not a behaviour of Builder: %s" % json.dumps(rj["event"])[:300],
                       {"session_tail": rj["session"][max(0, rj["index_in_session"] - 60):rj["index_in_session"]], "spec_diagnosis": rj["diag"]})
